@@ -3,7 +3,8 @@ from plib import *
 from props.builder import PProg, in_subgroup
 from props.common import ProgRunner
 
-LEAN_TARGETS = ["Plonk.Props.C13"]
+EXTRA_AUDITS = ["ComposerTie"]
+LEAN_TARGETS = ["Plonk.Props.C13", "Plonk.Props.ComposerTie"]
 PROFILE = "checked"
 ASSUMPTIONS = ["JubJub group structure (order 8*r_J) as an explicit hypothesis of the 'P in [8]E <-> [r_J]P = O' corollary",
                "prover success coincides with 'every row identity holds' outside explicit bad-challenge sets"]
